@@ -309,6 +309,12 @@ def cases(draw, max_nodes, max_steps):
                                   'g': draw(st.integers(0, len(desc['groups']) - 1))})
             desc['order'].append(len(desc['nodes']) - 1)
             desc['outputs'] = sorted(set(desc['outputs'] + ['n%d' % (len(desc['nodes']) - 1)]))
+        # a second transpiled class whose locals are named like the ports of the first one
+        if draw(st.integers(0, 2)) == 0:
+            src = draw(st.sampled_from(['i%d' % k for k in range(len(desc['inputs']))] + ['n%d' % k for k in range(len(desc['nodes']))]))
+            desc['nodes'].append({'op': 'LocalAR', 'args': [src], 'w': 16, 'p': {}, 'g': draw(st.integers(0, len(desc['groups']) - 1))})
+            desc['order'].append(len(desc['nodes']) - 1)
+            desc['outputs'] = sorted(set(desc['outputs'] + ['n%d' % (len(desc['nodes']) - 1)]))
         # a behavioural leaf the transpiler refuses: requests that reach it raise half way
         if draw(st.integers(0, 3)) == 0:
             src = draw(st.sampled_from(['i%d' % k for k in range(len(desc['inputs']))] + ['n%d' % k for k in range(len(desc['nodes']))]))
